@@ -134,6 +134,30 @@ def systematic_leaves(k0):
                            meta=dict(n=n + 1, nargs=1, nf=0, structnode=None, second=[], binds=[], values=[]))
 
 
+def known_finding_decls():
+    """Directed reproducers of the four open concurrency findings (one declaration each, package `kf`)."""
+    def fn(P, i, req, fall, asy):
+        return dict(kind="fn", fn="New%sT%d" % (P, i), requires=req, provides=[["*%sT%d" % (P, i)]], fallible=fall, node=i, bind=[], **{"async": asy})
+    out = []
+    # KF-C06-1: A, B async fallible; C(a, b) on the main thread; B fails while main waits for it
+    P = "K0"
+    out.append(dict(name="Init" + P, prefix=P, ret="*K0T0", kind="valid", layout=[0, 1, 2], meta=dict(n=3, nargs=0, nf=0, structnode=None, second=[], binds=[], values=[]),
+                    provs=[fn(P, 0, ["*K0T1", "*K0T2"], False, False), fn(P, 1, [], True, True), fn(P, 2, [], True, True)], kf="KF-C06-1"))
+    # KF-C07-1: no error result; goroutine B(d) waits for main's D with a ctx-aware select; main then waits plainly for b
+    P = "K1"
+    out.append(dict(name="Init" + P, prefix=P, ret="*K1T0", kind="valid", layout=[0, 1, 2, 3], meta=dict(n=4, nargs=0, nf=0, structnode=None, second=[], binds=[], values=[]),
+                    provs=[fn(P, 0, ["*K1T1", "*K1T2"], False, False), fn(P, 1, [], False, True), fn(P, 2, ["*K1T3"], False, True), fn(P, 3, [], False, False)], kf="KF-C07-1"))
+    # KF-C07-2: no error result; the requested value is produced by a goroutine that leaves through its ctx branch
+    P = "K2"
+    out.append(dict(name="Init" + P, prefix=P, ret="*K2T0", kind="valid", layout=[0, 1, 2], meta=dict(n=3, nargs=0, nf=0, structnode=None, second=[], binds=[], values=[]),
+                    provs=[fn(P, 0, ["*K2T1", "*K2T2"], False, True), fn(P, 1, [], False, False), fn(P, 2, [], False, True)], kf="KF-C07-2"))
+    # KF-C08-1: X sync fallible on the main thread; Y(x), A(x) async; Z(a, y); X fails
+    P = "K3"
+    out.append(dict(name="Init" + P, prefix=P, ret="*K3T0", kind="valid", layout=[0, 1, 2, 3], meta=dict(n=4, nargs=0, nf=0, structnode=None, second=[], binds=[], values=[]),
+                    provs=[fn(P, 0, ["*K3T1", "*K3T2"], False, False), fn(P, 1, ["*K3T3"], False, True), fn(P, 2, ["*K3T3"], False, True), fn(P, 3, [], True, False)], kf="KF-C08-1"))
+    return out
+
+
 def make_layout(rnd, m, P):
     """Random Set nesting over provider indexes 0..m-1, order preserving."""
     idx = list(range(m))
